@@ -83,20 +83,33 @@ def check(cx):
             ev = sorts[0]
             c = ev['cmp']
             a_, b_ = c[1], c[2]
-            want = ('enum', ORDERING, (('fcmp', 'lt', a_, b_), 0), (('fcmp', 'eq', a_, b_), 1), (('fcmp', 'gt', a_, b_), 2))
-            # f64::total_cmp orders normal floats exactly like partial_cmp
-            want_total = ('enum', ORDERING, (('tcmp', 'lt', a_, b_), 0), (('tcmp', 'eq', a_, b_), 1), (('tcmp', 'gt', a_, b_), 2))
-            if c[3] == want_total:
-                want = want_total
+            # dominated by the guard?  (then no operand is NaN or zero: partial order = total order = `<`)
+            dom0 = any(fc[0] == 'all' and fc[1] == whole and fc[3] == ('isnormal', ('elem', Et, fc[2], '')) for fc in ev['facts'])
+            less = greater = FALSE
+            shape_ok = isinstance(c[3], tuple) and c[3][0] == 'enum' and c[3][1] == ORDERING
+            if shape_ok:
+                from ..terms import mk_or, subst_term
+                for alt in c[3][2:]:
+                    g_, tag_ = alt[0], alt[1]
+                    if dom0:
+                        # on normal floats total_cmp and partial_cmp agree
+                        g_ = subst_term(g_, {x_: ('fcmp',) + x_[1:] for x_ in subterms(g_) if x_[0] == 'tcmp'})
+                    if tag_ == 0:
+                        less = mk_or(less, g_)
+                    elif tag_ == 2:
+                        greater = mk_or(greater, g_)
+            from .boollogic import equivalent
+            nonan = ('not', ('unord', a_, b_)) if dom0 else None
+            asc = shape_ok and equivalent(less, ('fcmp', 'lt', a_, b_), nonan) is True and equivalent(greater, ('fcmp', 'gt', a_, b_), nonan) is True
             if ev['seq'] != E:
                 why = 'sort_by is applied to a different vector'
             elif not ev['whole']:
                 why = 'only part of the ends is sorted'
-            elif c[3] != want:
-                why = 'comparator is not ascending partial_cmp(x, y): %s' % term_str(c[3])[:200]
+            elif not asc:
+                why = 'comparator is not ascending (Less ⇔ x < y, Greater ⇔ x > y): %s' % term_str(c[3])[:200]
             else:
                 ok_sort = True
-                why = 'ends.sort_by(|x, y| x.partial_cmp(y).unwrap()) — ascending'
+                why = 'ends.sort_by(cmp) with cmp = Less ⇔ x < y, Greater ⇔ x > y — ascending'
             # dominated by the guard?
             dom = any(fc[0] == 'all' and fc[1] == whole and fc[3] == ('isnormal', ('elem', Et, fc[2], '')) for fc in ev['facts'])
             rep.ob('nonnan', inst, dom, 'comparator unwrap: operands are elements of a vector with ∀ is_normal ⇒ not NaN', fn=inst, file=file, line=ev['line'],
